@@ -24,18 +24,24 @@ let res_3 := v_2 in
 match res_3 with
 | VC "Ok" [okval_4] =>
 let tried_6 := (VC "Ok" [okval_4]) in
+let after_9 := fun okval_7 : val =>
+(self_1, okval_7) in
 match tried_6 with
 | VC "Err" [err_8] => (self_1, (VC "Err" [err_8]))
-| VC "Ok" [okval_7] =>
-(self_1, okval_7)
+| VC "Ok" [okval_7] => after_9 okval_7
+| VC "None" [] => (self_1, (VC "None" []))
+| VC "Some" [okval_7] => after_9 okval_7
 | _ => (self_1, VStuck)
 end
 | VC "Err" [_] =>
-let tried_9 := (VC "Err" [(VC "Error::EventLoopDropped" [])]) in
-match tried_9 with
-| VC "Err" [err_11] => (self_1, (VC "Err" [err_11]))
-| VC "Ok" [okval_10] =>
-(self_1, okval_10)
+let tried_10 := (VC "Err" [(VC "Error::EventLoopDropped" [])]) in
+let after_13 := fun okval_11 : val =>
+(self_1, okval_11) in
+match tried_10 with
+| VC "Err" [err_12] => (self_1, (VC "Err" [err_12]))
+| VC "Ok" [okval_11] => after_13 okval_11
+| VC "None" [] => (self_1, (VC "None" []))
+| VC "Some" [okval_11] => after_13 okval_11
 | _ => (self_1, VStuck)
 end
 | _ => (self_1, VStuck)
@@ -86,69 +92,75 @@ end.
 Definition gen_IoLoopHandle_call_message (self : val) (message : val) : val * val :=
 let '(self_1, v_2) := gen_IoLoopHandle_send self message in
 let tried_3 := v_2 in
-match tried_3 with
-| VC "Err" [err_5] => (self_1, (VC "Err" [err_5]))
-| VC "Ok" [okval_4] =>
-(let '(self_6, v_7) := gen_IoLoopHandle_recv self_1 in
-let tried_8 := v_7 in
-match tried_8 with
-| VC "Err" [err_10] => (self_6, (VC "Err" [err_10]))
-| VC "Ok" [okval_9] =>
-let scrut_11 := okval_9 in
-(let next_12 := fun _ : unit =>
-(let next_13 := fun _ : unit =>
-(self_6, VStuck) in
-(let body_14 := fun _ : unit =>
-(self_6, (VC "Err" [VC "Error::FrameUnexpected" []])) in
-match scrut_11 with
+let after_6 := fun okval_4 : val =>
+(let '(self_7, v_8) := gen_IoLoopHandle_recv self_1 in
+let tried_9 := v_8 in
+let after_12 := fun okval_10 : val =>
+let scrut_13 := okval_10 in
+(let next_14 := fun _ : unit =>
+(let next_15 := fun _ : unit =>
+(self_7, VStuck) in
+(let body_16 := fun _ : unit =>
+(self_7, (VC "Err" [VC "Error::FrameUnexpected" []])) in
+match scrut_13 with
 | VC c_ args_ =>
   if (c_ =? "ChannelMessage::ConsumeOk")%string then
     match args_ with
-    | [a_16; a_17] => body_14 tt
-    | _ => match scrut_11 with
+    | [a_18; a_19] => body_16 tt
+    | _ => match scrut_13 with
 | VC c_ args_ =>
   if (c_ =? "ChannelMessage::GetOk")%string then
     match args_ with
-    | [a_15] => body_14 tt
-    | _ => next_13 tt
+    | [a_17] => body_16 tt
+    | _ => next_15 tt
     end
-  else next_13 tt
-| _ => next_13 tt
+  else next_15 tt
+| _ => next_15 tt
 end
     end
-  else match scrut_11 with
+  else match scrut_13 with
 | VC c_ args_ =>
   if (c_ =? "ChannelMessage::GetOk")%string then
     match args_ with
-    | [a_15] => body_14 tt
-    | _ => next_13 tt
+    | [a_17] => body_16 tt
+    | _ => next_15 tt
     end
-  else next_13 tt
-| _ => next_13 tt
+  else next_15 tt
+| _ => next_15 tt
 end
-| _ => match scrut_11 with
+| _ => match scrut_13 with
 | VC c_ args_ =>
   if (c_ =? "ChannelMessage::GetOk")%string then
     match args_ with
-    | [a_15] => body_14 tt
-    | _ => next_13 tt
+    | [a_17] => body_16 tt
+    | _ => next_15 tt
     end
-  else next_13 tt
-| _ => next_13 tt
+  else next_15 tt
+| _ => next_15 tt
 end
 end)) in
-match scrut_11 with
+match scrut_13 with
 | VC c_ args_ =>
   if (c_ =? "ChannelMessage::Method")%string then
     match args_ with
-    | [a_18] => (self_6, (ext "T::try_from" [a_18]))
-    | _ => next_12 tt
+    | [a_20] => (self_7, (ext "T::try_from" [a_20]))
+    | _ => next_14 tt
     end
-  else next_12 tt
-| _ => next_12 tt
-end)
-| _ => (self_6, VStuck)
-end)
+  else next_14 tt
+| _ => next_14 tt
+end) in
+match tried_9 with
+| VC "Err" [err_11] => (self_7, (VC "Err" [err_11]))
+| VC "Ok" [okval_10] => after_12 okval_10
+| VC "None" [] => (self_7, (VC "None" []))
+| VC "Some" [okval_10] => after_12 okval_10
+| _ => (self_7, VStuck)
+end) in
+match tried_3 with
+| VC "Err" [err_5] => (self_1, (VC "Err" [err_5]))
+| VC "Ok" [okval_4] => after_6 okval_4
+| VC "None" [] => (self_1, (VC "None" []))
+| VC "Some" [okval_4] => after_6 okval_4
 | _ => (self_1, VStuck)
 end.
 
@@ -163,69 +175,75 @@ Definition gen_IoLoopHandle_get (self : val) (get : val) : val * val :=
 let v_1 := (ext "make_buf" [self; (VC "AmqpBasic::Get" [get])]) in
 let '(self_2, v_3) := gen_IoLoopHandle_send self (VC "IoLoopMessage::Send" [v_1]) in
 let tried_4 := v_3 in
-match tried_4 with
-| VC "Err" [err_6] => (self_2, (VC "Err" [err_6]))
-| VC "Ok" [okval_5] =>
-(let '(self_7, v_8) := gen_IoLoopHandle_recv self_2 in
-let tried_9 := v_8 in
-match tried_9 with
-| VC "Err" [err_11] => (self_7, (VC "Err" [err_11]))
-| VC "Ok" [okval_10] =>
-let scrut_12 := okval_10 in
-(let next_13 := fun _ : unit =>
-(let next_14 := fun _ : unit =>
-(self_7, VStuck) in
-(let body_15 := fun _ : unit =>
-(self_7, (VC "Err" [VC "Error::FrameUnexpected" []])) in
-match scrut_12 with
+let after_7 := fun okval_5 : val =>
+(let '(self_8, v_9) := gen_IoLoopHandle_recv self_2 in
+let tried_10 := v_9 in
+let after_13 := fun okval_11 : val =>
+let scrut_14 := okval_11 in
+(let next_15 := fun _ : unit =>
+(let next_16 := fun _ : unit =>
+(self_8, VStuck) in
+(let body_17 := fun _ : unit =>
+(self_8, (VC "Err" [VC "Error::FrameUnexpected" []])) in
+match scrut_14 with
 | VC c_ args_ =>
   if (c_ =? "ChannelMessage::Method")%string then
     match args_ with
-    | [a_18] => body_15 tt
-    | _ => match scrut_12 with
+    | [a_20] => body_17 tt
+    | _ => match scrut_14 with
 | VC c_ args_ =>
   if (c_ =? "ChannelMessage::ConsumeOk")%string then
     match args_ with
-    | [a_16; a_17] => body_15 tt
-    | _ => next_14 tt
+    | [a_18; a_19] => body_17 tt
+    | _ => next_16 tt
     end
-  else next_14 tt
-| _ => next_14 tt
+  else next_16 tt
+| _ => next_16 tt
 end
     end
-  else match scrut_12 with
+  else match scrut_14 with
 | VC c_ args_ =>
   if (c_ =? "ChannelMessage::ConsumeOk")%string then
     match args_ with
-    | [a_16; a_17] => body_15 tt
-    | _ => next_14 tt
+    | [a_18; a_19] => body_17 tt
+    | _ => next_16 tt
     end
-  else next_14 tt
-| _ => next_14 tt
+  else next_16 tt
+| _ => next_16 tt
 end
-| _ => match scrut_12 with
+| _ => match scrut_14 with
 | VC c_ args_ =>
   if (c_ =? "ChannelMessage::ConsumeOk")%string then
     match args_ with
-    | [a_16; a_17] => body_15 tt
-    | _ => next_14 tt
+    | [a_18; a_19] => body_17 tt
+    | _ => next_16 tt
     end
-  else next_14 tt
-| _ => next_14 tt
+  else next_16 tt
+| _ => next_16 tt
 end
 end)) in
-match scrut_12 with
+match scrut_14 with
 | VC c_ args_ =>
   if (c_ =? "ChannelMessage::GetOk")%string then
     match args_ with
-    | [a_19] => (self_7, (VC "Ok" [a_19]))
-    | _ => next_13 tt
+    | [a_21] => (self_8, (VC "Ok" [a_21]))
+    | _ => next_15 tt
     end
-  else next_13 tt
-| _ => next_13 tt
-end)
-| _ => (self_7, VStuck)
-end)
+  else next_15 tt
+| _ => next_15 tt
+end) in
+match tried_10 with
+| VC "Err" [err_12] => (self_8, (VC "Err" [err_12]))
+| VC "Ok" [okval_11] => after_13 okval_11
+| VC "None" [] => (self_8, (VC "None" []))
+| VC "Some" [okval_11] => after_13 okval_11
+| _ => (self_8, VStuck)
+end) in
+match tried_4 with
+| VC "Err" [err_6] => (self_2, (VC "Err" [err_6]))
+| VC "Ok" [okval_5] => after_7 okval_5
+| VC "None" [] => (self_2, (VC "None" []))
+| VC "Some" [okval_5] => after_7 okval_5
 | _ => (self_2, VStuck)
 end.
 
@@ -234,69 +252,75 @@ Definition gen_IoLoopHandle_consume (self : val) (consume : val) : val * val :=
 let v_1 := (ext "make_buf" [self; (VC "AmqpBasic::Consume" [consume])]) in
 let '(self_2, v_3) := gen_IoLoopHandle_send self (VC "IoLoopMessage::Send" [v_1]) in
 let tried_4 := v_3 in
-match tried_4 with
-| VC "Err" [err_6] => (self_2, (VC "Err" [err_6]))
-| VC "Ok" [okval_5] =>
-(let '(self_7, v_8) := gen_IoLoopHandle_recv self_2 in
-let tried_9 := v_8 in
-match tried_9 with
-| VC "Err" [err_11] => (self_7, (VC "Err" [err_11]))
-| VC "Ok" [okval_10] =>
-let scrut_12 := okval_10 in
-(let next_13 := fun _ : unit =>
-(let next_14 := fun _ : unit =>
-(self_7, VStuck) in
-(let body_15 := fun _ : unit =>
-(self_7, (VC "Err" [VC "Error::FrameUnexpected" []])) in
-match scrut_12 with
+let after_7 := fun okval_5 : val =>
+(let '(self_8, v_9) := gen_IoLoopHandle_recv self_2 in
+let tried_10 := v_9 in
+let after_13 := fun okval_11 : val =>
+let scrut_14 := okval_11 in
+(let next_15 := fun _ : unit =>
+(let next_16 := fun _ : unit =>
+(self_8, VStuck) in
+(let body_17 := fun _ : unit =>
+(self_8, (VC "Err" [VC "Error::FrameUnexpected" []])) in
+match scrut_14 with
 | VC c_ args_ =>
   if (c_ =? "ChannelMessage::Method")%string then
     match args_ with
-    | [a_17] => body_15 tt
-    | _ => match scrut_12 with
+    | [a_19] => body_17 tt
+    | _ => match scrut_14 with
 | VC c_ args_ =>
   if (c_ =? "ChannelMessage::GetOk")%string then
     match args_ with
-    | [a_16] => body_15 tt
-    | _ => next_14 tt
+    | [a_18] => body_17 tt
+    | _ => next_16 tt
     end
-  else next_14 tt
-| _ => next_14 tt
+  else next_16 tt
+| _ => next_16 tt
 end
     end
-  else match scrut_12 with
+  else match scrut_14 with
 | VC c_ args_ =>
   if (c_ =? "ChannelMessage::GetOk")%string then
     match args_ with
-    | [a_16] => body_15 tt
-    | _ => next_14 tt
+    | [a_18] => body_17 tt
+    | _ => next_16 tt
     end
-  else next_14 tt
-| _ => next_14 tt
+  else next_16 tt
+| _ => next_16 tt
 end
-| _ => match scrut_12 with
+| _ => match scrut_14 with
 | VC c_ args_ =>
   if (c_ =? "ChannelMessage::GetOk")%string then
     match args_ with
-    | [a_16] => body_15 tt
-    | _ => next_14 tt
+    | [a_18] => body_17 tt
+    | _ => next_16 tt
     end
-  else next_14 tt
-| _ => next_14 tt
+  else next_16 tt
+| _ => next_16 tt
 end
 end)) in
-match scrut_12 with
+match scrut_14 with
 | VC c_ args_ =>
   if (c_ =? "ChannelMessage::ConsumeOk")%string then
     match args_ with
-    | [a_18; a_19] => (self_7, (VC "Ok" [(VC "tuple" [a_18; a_19])]))
-    | _ => next_13 tt
+    | [a_20; a_21] => (self_8, (VC "Ok" [(VC "tuple" [a_20; a_21])]))
+    | _ => next_15 tt
     end
-  else next_13 tt
-| _ => next_13 tt
-end)
-| _ => (self_7, VStuck)
-end)
+  else next_15 tt
+| _ => next_15 tt
+end) in
+match tried_10 with
+| VC "Err" [err_12] => (self_8, (VC "Err" [err_12]))
+| VC "Ok" [okval_11] => after_13 okval_11
+| VC "None" [] => (self_8, (VC "None" []))
+| VC "Some" [okval_11] => after_13 okval_11
+| _ => (self_8, VStuck)
+end) in
+match tried_4 with
+| VC "Err" [err_6] => (self_2, (VC "Err" [err_6]))
+| VC "Ok" [okval_5] => after_7 okval_5
+| VC "None" [] => (self_2, (VC "None" []))
+| VC "Some" [okval_5] => after_7 okval_5
 | _ => (self_2, VStuck)
 end.
 
